@@ -1744,3 +1744,120 @@ func isErrorType(t types.Type) bool {
 	n, ok := t.(*types.Named)
 	return ok && n.Obj().Pkg() == nil && n.Obj().Name() == "error"
 }
+
+// statCounterGlobal: g is a statistics counter as far as the functions in `observers` are concerned: everywhere in the
+// package its address (or the address of one of its fields) is only handed to sync/atomic Add functions / Add methods
+// whose result is dropped, or to atomic Load functions / Load methods in functions outside `observers`. Code in
+// `observers` therefore only ever adds to it and nothing it computes can depend on it.
+func (w *World) statCounterGlobal(g *ssa.Global, observers map[*ssa.Function]bool) bool {
+	okAll := true
+	var addrUse func(v ssa.Value, fn *ssa.Function, d int) bool
+	addrUse = func(v ssa.Value, fn *ssa.Function, d int) bool {
+		if v.Referrers() == nil || d > 3 {
+			return false
+		}
+		for _, r := range *v.Referrers() {
+			switch x := r.(type) {
+			case *ssa.DebugRef:
+			case *ssa.FieldAddr:
+				if !addrUse(x, fn, d+1) {
+					return false
+				}
+			case *ssa.Call:
+				callee := x.Call.StaticCallee()
+				if callee == nil || len(x.Call.Args) == 0 || x.Call.Args[0] != v {
+					return false
+				}
+				name := callee.String()
+				isAdd := strings.HasPrefix(name, "sync/atomic.Add") || (strings.HasPrefix(name, "(*sync/atomic.") && strings.HasSuffix(name, ").Add"))
+				isLoad := strings.HasPrefix(name, "sync/atomic.Load") || (strings.HasPrefix(name, "(*sync/atomic.") && strings.HasSuffix(name, ").Load"))
+				switch {
+				case isAdd:
+					for _, rr := range *x.Referrers() {
+						if _, dbg := rr.(*ssa.DebugRef); !dbg {
+							return false
+						}
+					}
+				case isLoad && !observers[fn]:
+				default:
+					return false
+				}
+			default:
+				return false
+			}
+		}
+		return true
+	}
+	for _, fn := range w.All {
+		fn := fn
+		eachInstr(fn, func(in ssa.Instruction) {
+			var rands []*ssa.Value
+			for _, r := range in.Operands(rands) {
+				if gg, ok := (*r).(*ssa.Global); ok && gg == g {
+					switch x := in.(type) {
+					case *ssa.FieldAddr:
+						if !addrUse(x, fn, 0) {
+							okAll = false
+						}
+					case *ssa.Call:
+						// the global's own address handed to an atomic function
+						tmp := map[ssa.Instruction]bool{in: true}
+						_ = tmp
+						callee := x.Call.StaticCallee()
+						name := ""
+						if callee != nil {
+							name = callee.String()
+						}
+						isAdd := strings.HasPrefix(name, "sync/atomic.Add") || (strings.HasPrefix(name, "(*sync/atomic.") && strings.HasSuffix(name, ").Add"))
+						isLoad := strings.HasPrefix(name, "sync/atomic.Load") || (strings.HasPrefix(name, "(*sync/atomic.") && strings.HasSuffix(name, ").Load"))
+						if len(x.Call.Args) == 0 || x.Call.Args[0] != ssa.Value(g) {
+							okAll = false
+						} else if isAdd {
+							for _, rr := range *x.Referrers() {
+								if _, dbg := rr.(*ssa.DebugRef); !dbg {
+									okAll = false
+								}
+							}
+						} else if !(isLoad && !observers[fn]) {
+							okAll = false
+						}
+					case *ssa.DebugRef:
+					default:
+						okAll = false
+					}
+				}
+			}
+		})
+	}
+	return okAll
+}
+
+// resultExit is one way a function leaves with result ri: the value on that way and the last instruction of the way
+// (the return itself, or the end of the predecessor block when the returned value is joined in the returning block, as in
+// the tail `return msg, err` of a body that was merged behind a common epilogue).
+type resultExit struct {
+	Val ssa.Value
+	At  ssa.Instruction
+}
+
+func resultExits(fn *ssa.Function, ri int) []resultExit {
+	var out []resultExit
+	for _, r := range returnsUnder(fn, nil) {
+		if ri >= len(r.Results) {
+			continue
+		}
+		var expand func(v ssa.Value, at ssa.Instruction, d int)
+		expand = func(v ssa.Value, at ssa.Instruction, d int) {
+			if p, ok := strip(v).(*ssa.Phi); ok && d < 3 && p.Block().Dominates(at.Block()) {
+				for k, e := range p.Edges {
+					pred := p.Block().Preds[k]
+					expand(e, pred.Instrs[len(pred.Instrs)-1], d+1)
+				}
+				return
+			}
+			out = append(out, resultExit{v, at})
+		}
+		expand(r.Results[ri], r, 0)
+	}
+	return out
+}
